@@ -118,6 +118,7 @@ type Run struct {
 	Cancelled   atomic.Bool
 	Returned    atomic.Bool // the cancelled call has returned to its caller: post-fault accounting starts here
 	ReturnDecision int
+	TasksAtReturn  int // tasks created later belong to later evaluations
 	ClientBlockedAfterCancel bool // the caller was blocked in the runtime at a quiescent point between cancel and return
 	clientTask  *Task
 	CancelDecision int
@@ -808,6 +809,7 @@ func (r *Run) fireCancel(nc int) {
 func (r *Run) MarkReturned() {
 	if r.Cancelled.Load() && !r.Returned.Load() {
 		r.ReturnDecision = r.decisions
+		r.TasksAtReturn = int(r.ntasks.Load())
 		r.Returned.Store(true)
 	}
 }
